@@ -85,6 +85,15 @@ T = {
  "R4D-m2": ("C07", "iter.rs From<EcsStep> for EcsStepDestroy always returns Continue", "an ecs_iter_destroy! closure returning EcsStep::Break (not EcsStepDestroy)"),
  "R4D-m3": ("C09", "storage.rs BorrowN::index() returns the slot index", "borrow(k).index() or an EntityDirect parameter of ecs_find_borrow! after churn (slot != dense)"),
  "R4D-m4": ("C09", "macros generate/world.rs World::destroy(EntityDirectAny) returns Some(()) unconditionally", "World::destroy with a stale EntityDirectAny: reports success"),
+ "R4A-m1": ("C06", "iter.rs/storage.rs: Iter/IterMut stop when the first column's pointer reaches an end pointer (two sites)", "an archetype whose first component is zero-sized, iterated with Archetype::iter()/iter_mut(): yields nothing"),
+ "R4A-m2": ("C13", "storage.rs Clone rebuilt on with_capacity(..) with len 0 until copied; free_head never refreshed (two sites)", "clone a world that is not full, then create in the clone"),
+ "R4A-m3": ("C12", "storage.rs grow policy `0 => 4, n => n + n/2` (1 + 1/2 == 1) with populate_free_list on an empty region (two sites)", "initial capacity exactly 1 and a second create"),
+ "R4A-m4": ("C08", "storage.rs force_destroy does not advance the slot generation when len == 1 (relying on the len == 0 early-out)", "drain an archetype to empty, then create again: the new handle equals the last destroyed one"),
+ "R4C-m1": ("C04", "storage.rs Drop fast path uses needs_drop .all() over the columns instead of .any()", "an archetype mixing a column that needs drop with one that does not: nothing is dropped with the world"),
+ "R4C-m2": ("C04", "storage.rs Clone skips zero-sized columns", "a zero-sized column with observable Clone/Drop and a clone"),
+ "R4C-m3": ("C17", "macros generate/world.rs EcsEventIterator compares `which` with ARCHETYPE_ID instead of the position", "events + explicit non-positional archetype ids"),
+ "R4C-m4": ("C19", "storage.rs `seq!(N in 17..32` (exclusive): no Storage32", "32_components + an archetype with exactly 32 components: does not compile"),
+ "R4C-m5": ("C17", "storage.rs clear_events returns early if `created` is empty", "events: clear, then destroys without creates in that archetype, then clear again"),
 }
 
 
